@@ -1158,7 +1158,7 @@ pub fn oracle_main(args: &[String]) {
                 let _ = tx.send((fd.out, fd.stats));
             })
             .unwrap();
-        match rx.recv_timeout(std::time::Duration::from_millis(20000)) {
+        match rx.recv_timeout(std::time::Duration::from_millis(8000)) {
             Ok((out, stats)) => {
                 for l in out {
                     println!("{}", l);
